@@ -68,11 +68,6 @@ Qed.
 (* ------------------------------------------------------------------ *)
 (* strictly increasing lists                                           *)
 
-Fixpoint inc_from (prev : Z) (l : list N) : bool :=
-  match l with
-  | [] => true
-  | a :: tl => (prev <? Z.of_N a)%Z && inc_from (Z.of_N a) tl
-  end.
 
 Lemma strictly_inc_cons a tl :
   strictly_inc (a :: tl) = inc_from (Z.of_N a) tl.
@@ -133,6 +128,36 @@ Qed.
 Lemma S_cov_table_from_length gl : forall i, length (S_cov_table_from gl i) = length gl.
 Proof. induction gl as [|g r IH]; intros i; cbn [S_cov_table_from length]; [reflexivity|]. now rewrite IH. Qed.
 
+Lemma tab_fill_other t : forall m g,
+  (forall p, In p t -> fst p <> g) ->
+  PositiveMap.find (pkey g) (tab_fill t m) = PositiveMap.find (pkey g) m.
+Proof.
+  induction t as [|[h i] t IH]; intros m g H; cbn [tab_fill]; [reflexivity|].
+  rewrite IH by (intros p Hp; apply H; right; exact Hp).
+  apply PositiveMap.gso. intros E. apply pkey_inj in E.
+  apply (H (h, i) (or_introl eq_refl)). cbn [fst]. congruence.
+Qed.
+
+Lemma S_cov_table_from_keys gl : forall i p g,
+  inc_from (Z.of_N g) gl = true -> In p (S_cov_table_from gl i) -> fst p <> g.
+Proof.
+  induction gl as [|h r IH]; intros i p g Hi Hp; [destruct Hp|].
+  cbn [inc_from] in Hi. apply andb_true_iff in Hi as [Hgh Hi].
+  cbn [S_cov_table_from] in Hp. destruct Hp as [<-|Hp]; [cbn [fst]; lia|].
+  apply (IH (i + 1)%Z p g); [|exact Hp]. eapply inc_from_weaken; [|exact Hi]. lia.
+Qed.
+
+Lemma rev_check_valid gl : forall i m prev,
+  inc_from prev gl = true ->
+  rev_check gl i (tab_fill (S_cov_table_from gl i) m) = true.
+Proof.
+  induction gl as [|g r IH]; intros i m prev Hi; cbn [rev_check S_cov_table_from tab_fill]; [reflexivity|].
+  cbn [inc_from] in Hi. apply andb_true_iff in Hi as [_ Hi].
+  rewrite tab_fill_other by (intros p Hp; eapply S_cov_table_from_keys; eassumption).
+  rewrite PositiveMap.gss, Z.eqb_refl. cbn [andb].
+  eapply IH. exact Hi.
+Qed.
+
 Lemma encinfo_valid gl :
   strictly_inc gl = true ->
   M_cov_encinfo (S_cov_table gl) =
@@ -143,7 +168,9 @@ Proof.
   rewrite S_cov_table_from_length.
   change 0%Z with (Z.of_N 0).
   rewrite rev_fill_valid by lia. cbn [obind].
-  rewrite rev_list_fill, Hs. reflexivity.
+  rewrite rev_list_fill, Hs.
+  rewrite strictly_inc_inc_from in Hs.
+  change (Z.of_N 0) with 0%Z. rewrite (rev_check_valid gl 0 _ (-1) Hs). reflexivity.
 Qed.
 
 (* ------------------------------------------------------------------ *)
@@ -224,7 +251,7 @@ Proof.
   set (rev := rev_list (length t) 0 m).
   assert (Hlen : length rev = length t) by apply rev_list_length.
   rewrite <- Hlen.
-  destruct (strictly_inc rev) eqn:Hs; [|discriminate].
+  destruct (strictly_inc rev && rev_check rev 0 (tab_fill t (PositiveMap.empty Z))) eqn:Hs; [|discriminate].
   intros E. apply ok_inj in E. subst b. f_equal. rewrite cov_bytes_eq.
   cbv beta iota delta [ei_f1 ei_f2 ei_rev].
   destruct (4 + 2 * N.of_nat (length rev) <=? 4 + 6 * range_count rev 65535) eqn:Hc.
@@ -542,4 +569,98 @@ Proof.
   rewrite strictly_inc_inc_from. unfold S_cov_pairs.
   destruct (w16 a b =? 1); [apply cov_read1_shape; assumption|].
   destruct (w16 a b =? 2); [apply cov_read2_shape; assumption|discriminate].
+Qed.
+
+(* ------------------------------------------------------------------ *)
+(* the encoder refuses every table that violates the Table invariant   *)
+
+Lemma tab_fill_find t : forall m g i,
+  PositiveMap.find (pkey g) (tab_fill t m) = Some i ->
+  In (g, i) t \/ PositiveMap.find (pkey g) m = Some i.
+Proof.
+  induction t as [|[h j] t IH]; intros m g i H; cbn [tab_fill] in H; [right; exact H|].
+  apply IH in H. destruct H as [H|H]; [left; right; exact H|].
+  destruct (N.eq_dec h g) as [->|Hne].
+  - rewrite PositiveMap.gss in H. injection H as ->. left. left. reflexivity.
+  - rewrite PositiveMap.gso in H by (intros E; apply pkey_inj in E; congruence). right. exact H.
+Qed.
+
+Lemma rev_check_In rev : forall i t,
+  rev_check rev i (tab_fill t (PositiveMap.empty Z)) = true ->
+  incl (S_cov_table_from rev i) t.
+Proof.
+  induction rev as [|g r IH]; intros i t H; cbn [rev_check S_cov_table_from] in *; [intros p []|].
+  apply andb_true_iff in H as [H1 H2].
+  intros p [<-|Hp]; [|apply (IH _ _ H2); exact Hp].
+  destruct (PositiveMap.find (pkey g) (tab_fill t (PositiveMap.empty Z))) as [j|] eqn:E; [|discriminate].
+  apply Z.eqb_eq in H1. subst j.
+  apply tab_fill_find in E. destruct E as [E|E]; [exact E|].
+  rewrite PositiveMap.gempty in E. discriminate.
+Qed.
+
+Lemma inc_from_In p l x : inc_from p l = true -> In x l -> (p < Z.of_N x)%Z.
+Proof.
+  revert p; induction l as [|a l IH]; intros p H Hx; [destruct Hx|].
+  cbn [inc_from] in H. apply andb_true_iff in H as [H1 H2].
+  destruct Hx as [<-|Hx]; [lia|]. specialize (IH _ H2 Hx). lia.
+Qed.
+
+Lemma keys_NoDup (t : list (N * Z)) p : inc_from p (map fst t) = true -> NoDup t.
+Proof.
+  revert p; induction t as [|[g i] t IH]; intros p H; constructor.
+  - cbn [map fst inc_from] in H. apply andb_true_iff in H as [_ H].
+    intros Hin. pose proof (inc_from_In _ _ g H (in_map fst _ _ Hin)). lia.
+  - cbn [map fst inc_from] in H. apply andb_true_iff in H as [_ H]. eapply IH. exact H.
+Qed.
+
+(* two key-sorted lists of the same length, one contained in the other *)
+Lemma sorted_incl_eq (a : list (N * Z)) : forall b p q,
+  inc_from p (map fst a) = true -> inc_from q (map fst b) = true ->
+  length a = length b -> incl a b -> a = b.
+Proof.
+  induction a as [|[g i] a IH]; intros b p q Ha Hb Hlen Hinc.
+  - destruct b; [reflexivity|discriminate].
+  - destruct b as [|[h j] b]; [discriminate|].
+    cbn [map fst inc_from] in Ha, Hb.
+    apply andb_true_iff in Ha as [Hpg Ha]. apply andb_true_iff in Hb as [Hqh Hb].
+    assert (Hgi : In (g, i) ((h, j) :: b)) by (apply Hinc; left; reflexivity).
+    destruct Hgi as [E|Hgi].
+    + injection E as -> ->. f_equal.
+      apply (IH b (Z.of_N g) (Z.of_N g) Ha Hb ltac:(cbn [length] in Hlen; lia)).
+      intros x Hx. destruct (Hinc x (or_intror Hx)) as [<-|Hx']; [|exact Hx'].
+      pose proof (inc_from_In _ _ g Ha (in_map fst _ _ Hx)). cbn [fst] in *. lia.
+    + (* (g, i) sits further down in b: then all of a ++ (g,i) fits into b *)
+      exfalso.
+      pose proof (inc_from_In _ _ g Hb (in_map fst _ _ Hgi)) as Hhg. cbn [fst] in Hhg.
+      assert (Hincl : incl ((g, i) :: a) b).
+      { intros x Hx. destruct (Hinc x Hx) as [<-|Hx']; [|exact Hx'].
+        destruct Hx as [E|Hx]; [injection E as <- <-; lia|].
+        pose proof (inc_from_In _ _ h Ha (in_map fst _ _ Hx)). cbn [fst] in *. lia. }
+      assert (Hnd : NoDup ((g, i) :: a)).
+      { apply (keys_NoDup _ p). cbn [map fst inc_from]. apply andb_true_iff. split; assumption. }
+      pose proof (NoDup_incl_length Hnd Hincl) as Hl. cbn [length] in Hlen, Hl. lia.
+Qed.
+
+Lemma S_cov_table_from_fst gl : forall i, map fst (S_cov_table_from gl i) = gl.
+Proof. induction gl as [|g r IH]; intros i; cbn [S_cov_table_from map fst]; [reflexivity|]. now rewrite IH. Qed.
+
+(* for a key-sorted table: Encode returns only if the table is a valid
+   coverage table (index = rank) *)
+Lemma cov_encode_ok_valid t b :
+  inc_from (-1) (map fst t) = true -> M_cov_encode t = Ok b ->
+  t = S_cov_table (map fst t).
+Proof.
+  intros Hsorted. unfold M_cov_encode, M_cov_encinfo.
+  destruct (rev_fill t (N.of_nat (length t)) (PositiveMap.empty N)) as [m| | |]; cbn [obind]; try discriminate.
+  set (rev := rev_list (length t) 0 m).
+  destruct (strictly_inc rev && rev_check rev 0 (tab_fill t (PositiveMap.empty Z))) eqn:Hc; [|discriminate].
+  intros _. apply andb_true_iff in Hc as [Hs Hchk].
+  assert (Hlen : length rev = length t) by apply rev_list_length.
+  pose proof (rev_check_In rev 0 t Hchk) as Hincl.
+  rewrite strictly_inc_inc_from in Hs.
+  assert (E : S_cov_table_from rev 0 = t).
+  { apply (sorted_incl_eq _ t (-1) (-1)); try assumption.
+    - now rewrite S_cov_table_from_fst.
+    - now rewrite S_cov_table_from_length. }
+  rewrite <- E at 2. rewrite S_cov_table_from_fst. unfold S_cov_table. symmetry. exact E.
 Qed.
